@@ -58,4 +58,20 @@ def Item.idents : Item → List Ident
   | .aliased a => [a]
   | .other => []
 
+/-! ### the alias decision of `translate_select_item` (sql/gen_expr.rs)
+
+`inferred` = the name the emitted expression would get by itself (the last part of a compound identifier, never `*`),
+`expected` = the name the frame gives the column (`column_names`), `fresh` = the next generated name. The item gets
+`AS <alias>` iff the two differ (as Option, compared EXACTLY); the alias is the expected name, or a generated one. -/
+
+/-- `none` = no alias (UnnamedExpr); `some a` = ExprWithAlias a -/
+def aliasOf (inferred expected : Option Ident) (fresh : Ident) : Option Ident :=
+  if inferred = expected then none else some (expected.getD fresh)
+
+/-- the name under which the database returns the item -/
+def resultName (inferred expected : Option Ident) (fresh : Ident) : Option Ident :=
+  match aliasOf inferred expected fresh with
+  | some a => some a
+  | none => inferred
+
 end Model.Projection
